@@ -833,7 +833,7 @@ class Exec:
         if rty and rty.kind == 'tuple': res = SV(tuple(SV(fresh('res', sort_of(t_)), t_) for t_ in rty.arg), rty)
         else: res = SV(fresh('res', sort_of(rty) if rty else I), rty or NONE)
         if rty and rty.kind == 'list': res = s.list_sv(st, res.t, rty)
-        if rty and rty.kind == 'ref': st.defs.append(And(res.t >= 0, res.t < st.heap.alloc))
+        if rty and rty.kind in ('ref', 'list'): st.defs.append(And(res.t >= 0, res.t < st.heap.alloc))
         st3 = st.fork(); st3.env = dict(env, result=res); st3.old = snapshot; st3.old_env = dict(env)
         for e in c.ensures:
             if s.uses(e): st.pc.append(s.spec_bool(st3, e))
